@@ -58,7 +58,7 @@ func (d Decimal) Ceil(dp int) Decimal {
 		return zero(d.Signbit())
 	}
 
-	dp = dp*-1 + exponentBias
+	dp = clampDP(dp)*-1 + exponentBias
 	iexp := int(exp)
 
 	if iexp >= dp {
@@ -135,7 +135,7 @@ func (d Decimal) Floor(dp int) Decimal {
 		return zero(d.Signbit())
 	}
 
-	dp = dp*-1 + exponentBias
+	dp = clampDP(dp)*-1 + exponentBias
 	iexp := int(exp)
 
 	if iexp >= dp {
@@ -213,7 +213,7 @@ func (d Decimal) Round(dp int, mode RoundingMode) Decimal {
 		return zero(d.Signbit())
 	}
 
-	dp = dp*-1 + exponentBias
+	dp = clampDP(dp)*-1 + exponentBias
 	iexp := int(exp)
 
 	if iexp >= dp {
@@ -245,6 +245,21 @@ func (d Decimal) Round(dp int, mode RoundingMode) Decimal {
 	sig, exp = mode.round(false, neg, sig, int16(iexp), trunc, digit)
 
 	return composeQuantised(neg, sig, int(exp))
+}
+
+// clampDP limits dp to the range in which it makes a difference: a quantum
+// beyond 10^±maxBiasedExponent is above or below every finite value. This
+// keeps the conversion to a biased exponent free of integer overflow.
+func clampDP(dp int) int {
+	if dp > maxBiasedExponent {
+		return maxBiasedExponent
+	}
+
+	if dp < -maxBiasedExponent {
+		return -maxBiasedExponent
+	}
+
+	return dp
 }
 
 // composeQuantised composes sig × 10^exp (exp biased) where exp may lie above
